@@ -168,7 +168,7 @@ def build(reg):
         requires=pl_requires,
         ensures={"parts_glue_back": post_glue, "component_shapes": post_shapes, "trace_iff_starred": post_trace,
                  "indices_functional": post_indices_functional},
-        result_type=LABEL,
+        result_type=LABEL, result_name="py_parse_label",
         # two of the ~120 paths need about 4 s of cvc5 on an idle machine
         solver_hints={"post.indices_functional": {"cli_s": 30}, "inv0.after": {"cli_s": 30},
                       "post.parts_glue_back": {"cli_s": 20}},
